@@ -32,7 +32,7 @@ def parseExt (w : String) : Option (Nat × Kind × Nat) :=
 
 def extOf (tab : List (Nat × Kind × Nat)) : Ext := fun pos => tab.lookup pos
 
-def showResult (r : Except Panic (List Tok)) : String :=
+def showTokResult (r : Except Panic (List Tok)) : String :=
   match r with
   | .ok ts => joinSp ("ok" :: ts.map Tok.show)
   | .error .outOfFuel => "timeout"
@@ -50,7 +50,7 @@ def parseText (args : List String) : Option (List Char × Cls × Ext) :=
 /-- `lex | cp:flags … | pos:kind:len …` → tokens of `PlainEnglish::parse` -/
 def handleLex (args : List String) : String :=
   match parseText args with
-  | some (src, cls, ext) => showResult (parsePlain cls ext src)
+  | some (src, cls, ext) => showTokResult (parsePlain cls ext src)
   | none => "bad-op"
 
 /-- `f64 | cps` → does `str::parse::<f64>` accept? -/
